@@ -130,9 +130,9 @@ def run_shard(shard, rec, tier, seed):
             rng = harness.rng_for(seed, ID, shard["name"], i)
             specs = []
             for _ in range(rng.choice([1, 5, 40])):
-                np_ = rng.choice([0, 1, 2, 5, 12, 60])
+                np_ = rng.choice([0, 1, 2, 5, 12, 60]) if rng.random() < 0.97 else rng.choice([130, 300, 700])
                 base = rng.choice([0, 10, 10**6])
-                span = rng.choice([10, 40, 1000])
+                span = rng.choice([10, 40, 1000]) if np_ < 100 else 20 * np_
                 phrases = sorted([[base + rng.randint(0, span), rng.choice([0, 0, 1, 2, 3, rng.randint(0, span)])] for _ in range(np_)],
                                  key=lambda p: p[0])
                 ticks = set()
